@@ -28,6 +28,8 @@ claimed={
         "owner kinds range over a finite family (cvc5 does not decide str.to_lower on a symbolic kind in time); page size over {1,2,3,10,100,9999} (symbolic x symbolic 64-bit mul/div did not finish in any solver); go-restful request/response replaced by a recording model, strconv.Atoi of a symbolic string modelled as an arbitrary outcome; sorting by IP not covered"),
  'C17':("model_checking","shouldCleanup and the file collectors (cleanupGCDirs, cleanupIP) executed symbolically against an arbitrary runtime answer per container (inspect outcome, docker state/status, CRI sandbox state, pod existence and container states all symbolic) for both runtimes: state is removed iff the container is gone or exited, never on a runtime error, foreign files and directories are kept, one round suffices",
         "docker HTTP client and grpc replaced (engine: DockerInspectContainer intercepted by a harness model, grpc status modelled; native replay: httptest docker daemon, fake CRI client); os/ioutil calls run on an in-memory file system in the engine and on a temp dir natively; veth cleanup (netlink) not covered; Remove failures not injected"),
+ 'C18':("model_checking","every feasible path of every harness is also checked for panics, self-deadlocks, unwinding failures (non-termination candidates are replayed under a watchdog) and locks left held; dedicated surface harnesses drive Filter / Bind / UpdatePod / DeletePod / unbind / syncPodIP / resync with arbitrary owner references, annotation texts (malformed JSON, wrong shapes, reversed / overlapping / boundary ranges), phases and missing workloads, and the range walk with symbolic 32-bit endpoints incl. 255.255.255.255",
+        "galaxy-ipam typed surfaces only so far; HTTP handlers, configuration texts, CNI requests and NetworkPolicy objects are covered only where other properties' harnesses execute them; annotation texts range over a finite family; termination within the engine's step/unwind bounds"),
  'C04':("model_checking","bounded histories of the real plugin (Filter, Bind, unbind, resyncPod, Release) over fakes of the API server: re-incarnation scenario with symbolic policy, event order, lister lag; after every step every live bound pod must still own its IP (solver decides every symbolic branch; counterexamples replayed natively)",
         "bounds: see evidence bounds; sequential histories (event orders, lags) only - no thread interleavings; fakes of API server/listers trusted"),
 }
